@@ -163,6 +163,18 @@ fn place_program(rng: &mut Rng, world: &mut World, program: &catalogue::Program,
             argv.push(path);
         }
     }
+    // a file that declares no module (empty, comments only, switched off by the preprocessor): legal, compiled, and
+    // nothing of it reaches the generators
+    if rng.chance(1, 6) {
+        let path = if in_dir { "src/blank.slice".to_owned() } else { "blank.slice".to_owned() };
+        world.entries.push(Entry { path: path.clone(), kind: EntryKind::File { content: catalogue::blank_text(rng), hex: None }, mode: None });
+        if allow_refs && rng.chance(1, 2) {
+            refs.push(path);
+        } else {
+            let at = rng.usize_below(argv.len() + 1);
+            argv.insert(at, path);
+        }
+    }
     // the same file twice in one list: a DuplicateFile warning, which (like any warning) must not change anything else
     if rng.chance(1, 5) && !argv.is_empty() {
         let again = rng.pick(&argv).clone();
